@@ -145,8 +145,10 @@ def transitive_sources(prop):
             continue
         seen.append(f)
         text = re.sub(r"\(\*.*?\*\)", "", f.read_text(), flags=re.S)
-        for m in re.finditer(r"(?:From\s+NurbsV\s+)?Require\s+(?:Import|Export)?\s*([^.]*(?:\.[A-Za-z_][\w]*)*[^.]*)\.\s", text):
-            for name in m.group(1).split():
+        for sentence in re.split(r"\.\s", text):
+            if "Require" not in sentence:
+                continue
+            for name in re.findall(r"[A-Za-z_][\w.]*", sentence):
                 name = name.replace("NurbsV.", "")
                 parts = name.split(".")
                 if len(parts) == 2 and (COQ / parts[0] / f"{parts[1]}.v").exists():
